@@ -32,8 +32,11 @@ def error_blocks(b):
 
 
 def on_error_path(b, bb, errs=None):
+    """every path from entry to bb passes through an error exit (`_0 = Err(..)` / from_residual)"""
     errs = error_blocks(b) if errs is None else errs
-    return any(b.dominates(e, bb) for e in errs)
+    if bb in errs:
+        return True
+    return bb not in b.reach_from(0, avoid=errs)
 
 
 def loop_exit_of_iterator(b, bb, place):
@@ -127,5 +130,30 @@ def load_table(name):
                 continue
             parts = [x.strip() for x in line.split("|")]
             if len(parts) >= 3:
-                rows[(parts[0], parts[1])] = " | ".join(parts[2:])
+                place = parts[1]
+                count = 1
+                import re as _re
+                m = _re.match(r"^(.*)\s+x(\d+)$", place)
+                if m:
+                    place, count = m.group(1), int(m.group(2))
+                rows[(parts[0], place)] = TableRow(" | ".join(parts[2:]), count)
     return rows
+
+
+class TableRow(str):
+    """reason text of a reviewed row; `.count` = number of feasible sites the row was reviewed for"""
+    def __new__(cls, text, count=1):
+        o = str.__new__(cls, text)
+        o.count = count
+        return o
+
+
+def check_counts(ctx, rid, table, seen_counts):
+    """a reviewed row covers exactly the number of sites that were reviewed: a *new* destruction site of the
+    same variable in the same function is not silently covered."""
+    for key, n in seen_counts.items():
+        row = table.get(key)
+        if row is not None and n != row.count:
+            ctx.violation(rid, "%s:drop(%s):site-count" % key, "", key[0],
+                          "the reviewed table row covers %d destruction site(s) of `%s` in this function but %d are "
+                          "feasible now: a new site needs review" % (row.count, key[1], n))
